@@ -62,9 +62,16 @@ type Payload struct {
 	// SkipLockAfterFailure: do not evaluate the lock state after a failed call (set in the main
 	// workload while KF-vm-wait-leaks-rlock is open; such histories end at the failed call).
 	SkipLockAfterFailure bool `json:"skip_lock_after_failure,omitempty"`
+	// Reap: schedule perturbation for calls that run on several cores. A core that is about to start a
+	// thread, and a thread that is about to signal its exit, is held (for at most 25 ms) until the
+	// host's Wait has removed every core that had finished before from the core list. This makes the
+	// orders "a core is reaped, then another one is started / finishes" happen on fast machines too;
+	// the verdict of a case never depends on the waiting time.
+	Reap bool `json:"reap,omitempty"`
 }
 
 type exitRec struct {
+	ptr      *runtime.Core
 	core     uint
 	stack    int
 	frames   int
@@ -78,9 +85,16 @@ type monitor struct {
 	exits  []exitRec
 	steps  int64
 	budget int64
-	// first: number of the core that runs the invoked function of the current call
-	first     uint
-	haveFirst bool
+	// main: the core that runs the invoked function of the current call (the first one that executes an instruction)
+	main *runtime.Core
+	// spawns: cores created during the current call (the one of the invoked function included)
+	spawns int
+}
+
+func (m *monitor) stepsNow() int64 {
+	m.mu.Lock()
+	defer m.mu.Unlock()
+	return m.steps
 }
 
 const coreRunFrame = "homescript/runtime.(*Core).Run("
@@ -239,20 +253,46 @@ func runHistory(pl Payload) (h *histRun) {
 	}
 
 	mon := &monitor{budget: 3_000_000}
-	runtime.VerifCoreExit = func(c *runtime.Core) {
+	var vm runtime.VM
+	// reaped: every core of the current call that has signalled its exit has left the core list
+	reaped := func(started int) bool {
+		if !vm.Cores.Lock.TryRLock() {
+			return false
+		}
+		n := len(vm.Cores.Cores)
+		vm.Cores.Lock.RUnlock()
 		mon.mu.Lock()
-		mon.exits = append(mon.exits, exitRec{core: c.Corenum, stack: len(c.Stack), frames: len(c.CallStack), mp: c.MemoryPointer, handlers: len(c.ExceptionCatchLabels)})
+		live := started - len(mon.exits)
+		mon.mu.Unlock()
+		return n <= live
+	}
+	hold := func(started int) {
+		for k := 0; k < 100 && !reaped(started); k++ {
+			time.Sleep(250 * time.Microsecond)
+		}
+	}
+	runtime.VerifCoreExit = func(c *runtime.Core) {
+		if pl.Reap {
+			mon.mu.Lock()
+			thread, started := mon.main != nil && c != mon.main, mon.spawns
+			mon.mu.Unlock()
+			if thread {
+				hold(started)
+			}
+		}
+		mon.mu.Lock()
+		mon.exits = append(mon.exits, exitRec{ptr: c, core: c.Corenum, stack: len(c.Stack), frames: len(c.CallStack), mp: c.MemoryPointer, handlers: len(c.ExceptionCatchLabels)})
 		mon.mu.Unlock()
 	}
 	runtime.VerifStep = func(c *runtime.Core) {
-		// the budget applies to the core that runs the invoked function (the first and lowest-numbered
-		// core of the call); threads it spawns may legitimately run until they are cancelled
+		// the budget applies to the core that runs the invoked function (the first core of the call that
+		// executes an instruction); threads it spawns may legitimately run until they are cancelled
 		mon.mu.Lock()
-		if !mon.haveFirst || c.Corenum < mon.first {
-			mon.haveFirst, mon.first = true, c.Corenum
+		if mon.main == nil {
+			mon.main = c
 		}
 		over := false
-		if c.Corenum == mon.first {
+		if c == mon.main {
 			mon.steps++
 			over = mon.steps > mon.budget
 		}
@@ -261,9 +301,23 @@ func runHistory(pl Payload) (h *histRun) {
 			panic(fw.StepBudgetMsg)
 		}
 	}
+	runtime.VerifYield = func(site string) {
+		if site == "spawn" {
+			mon.mu.Lock()
+			started := mon.spawns
+			mon.mu.Unlock()
+			if pl.Reap && started > 0 { // not the host's own spawn of the invoked function
+				hold(started)
+			}
+			mon.mu.Lock()
+			mon.spawns++
+			mon.mu.Unlock()
+		}
+	}
 	defer func() {
 		runtime.VerifCoreExit = nil
 		runtime.VerifStep = nil
+		runtime.VerifYield = nil
 	}()
 
 	baseline := coreGoroutines() // leftovers of earlier cases of this worker process
@@ -320,7 +374,6 @@ func runHistory(pl Payload) (h *histRun) {
 	limits := runtime.CoreLimits{CallStackMaxSize: pl.Limits.CallStack, StackMaxSize: pl.Limits.Stack, MaxMemorySize: pl.Limits.Memory}
 	e := env{callStackMax: int64(pl.Limits.CallStack)}
 
-	var vm runtime.VM
 	if pv := protect(func() { vm = runtime.NewVM(prog, exec, &ctx, &cancel, exec.VMScope(), limits) }); pv != nil {
 		h.violate("newvm:panic", "NewVM panicked on the host goroutine: "+util.Clip(fmt.Sprint(pv), 300), nil)
 		return h
@@ -372,8 +425,20 @@ func runHistory(pl Payload) (h *histRun) {
 		vm.Cores.Lock.Unlock()
 		h.obs["lock_checks"]++
 
+		// a VM whose context is cancelled (it does that itself when a call fails) must refuse the call:
+		// nothing executes, the model state stays as it is
+		cancelled := ctx.Err() != nil
+		if cancelled && failedAt < 0 {
+			h.violate("cancel:without-failure", fmt.Sprintf("before call %d %s the context of the VM is cancelled although no call of the history has failed", i, op), h.trace)
+			return h
+		}
+
 		// the model
-		want, wantFail := spec.Model(st, e, op.Args)
+		var want valuni.Val
+		var wantFail *failure
+		if !cancelled {
+			want, wantFail = spec.Model(st, e, op.Args)
+		}
 
 		// the implementation
 		args := make([]vvalue.Value, len(op.Args))
@@ -392,7 +457,8 @@ func runHistory(pl Payload) (h *histRun) {
 		mon.mu.Lock()
 		mon.exits = mon.exits[:0]
 		mon.steps = 0
-		mon.haveFirst = false
+		mon.main = nil
+		mon.spawns = 0
 		mon.mu.Unlock()
 		var res runtime.FunctionInvocationResult
 		pv := protect(func() {
@@ -413,6 +479,7 @@ func runHistory(pl Payload) (h *histRun) {
 		}
 		mon.mu.Lock()
 		exits := append([]exitRec{}, mon.exits...)
+		mainCore, spawns := mon.main, mon.spawns
 		mon.mu.Unlock()
 
 		obsFailed := res.Exception != nil
@@ -432,6 +499,16 @@ func runHistory(pl Payload) (h *histRun) {
 				h.trace = append(h.trace, line+" => failure "+oc.Class+"/"+oc.Kind)
 			} else {
 				h.cover["after-failure:success"] = true
+				if cancelled {
+					got := "no value"
+					if res.ReturnValue != nil {
+						if g, err := valuni.FromVM(res.ReturnValue); err == nil {
+							got = g.String()
+						}
+					}
+					h.violate("after-failure:success-on-cancelled-vm:"+spec.Name, fmt.Sprintf("call %d %s was made after call %d had failed and the VM had cancelled its context; the VM executed it (%d instructions) and answered with the regular result %s instead of a failure", i, op, failedAt, mon.stepsNow(), util.Clip(got, 200)), h.trace)
+					return h
+				}
 				if wantFail != nil {
 					h.violate("after-failure:success-instead-of-failure:"+spec.Name, fmt.Sprintf("call %d %s (after the failed call %d) returned successfully, but the function must fail with %s", i, op, failedAt, wantFail.Kind), h.trace)
 					return h
@@ -486,10 +563,22 @@ func runHistory(pl Payload) (h *histRun) {
 		// ---- residue of a completed call ----------------------------------------------------
 		if !obsFailed {
 			h.obs["residue_checks"]++
-			if len(exits) != 1 {
-				h.violate("residue:exit-events:"+spec.Name, fmt.Sprintf("call %d %s: %d cores signalled their exit during the call, expected exactly one", i, op, len(exits)), h.trace)
-			} else {
-				x := exits[0]
+			h.cover[fmt.Sprintf("cores-per-call:%d", spawns)] = true
+			var x *exitRec
+			for k := range exits {
+				if exits[k].ptr == mainCore && mainCore != nil {
+					x = &exits[k]
+				}
+			}
+			switch {
+			case len(exits) < spawns:
+				h.violate("residue:cores-running:"+spec.Name, fmt.Sprintf("call %d %s returned as completed while %d of the %d cores it had started had not signalled their exit: threads of the call are left running (or are never waited for) after the call", i, op, spawns-len(exits), spawns), h.trace)
+			case len(exits) != spawns || x == nil:
+				h.violate("residue:exit-events:"+spec.Name, fmt.Sprintf("call %d %s: %d cores were started and %d signalled their exit during the call (the core of the invoked function among them: %v)", i, op, spawns, len(exits), x != nil), h.trace)
+			case spawns != 1+spec.Threads:
+				h.violate("residue:thread-count:"+spec.Name, fmt.Sprintf("call %d %s ran on %d cores, the function starts %d threads", i, op, spawns, spec.Threads), h.trace)
+			}
+			if x != nil {
 				// every function leaves exactly its result (null for a function without one)
 				if x.stack != 1 {
 					h.violate("residue:stack:"+spec.Name, fmt.Sprintf("call %d %s completed with %d operand-stack entries (expected 1: exactly the return value)", i, op, x.stack), h.trace)
@@ -503,6 +592,9 @@ func runHistory(pl Payload) (h *histRun) {
 				if x.handlers != 0 {
 					h.violate("residue:handlers:"+spec.Name, fmt.Sprintf("call %d %s completed with %d exception handlers still registered", i, op, x.handlers), h.trace)
 				}
+			}
+			if spawns > 1 {
+				h.obs["threaded_calls"]++
 			}
 		}
 		// ---- VM-level residue after every call -------------------------------------------------
